@@ -342,7 +342,9 @@ pub fn evaluate(prop: &str, sc: &Scenario) -> Eval {
             while k < nops {
                 let mut f = sc.clone();
                 if let Workload::Dump(p) = &mut f.workload {
-                    p.dests[0].fx = vec![(k, DestFx::Error(crate::kernel::ENOSPC))];
+                    p.dests[0].fx.retain(|(o, _)| *o != k);
+                    p.dests[0].fx.push((k, DestFx::Error(crate::kernel::ENOSPC)));
+                    p.dests[0].fx.sort_by_key(|(o, _)| *o);
                 }
                 let fres = run(&f, &RunOpts::default());
                 ev.runs += 1;
